@@ -103,7 +103,7 @@ fn scenario(cuts: &[usize], release_at: usize, ra: usize, re: usize) {
 //     everything but the bytes concrete): all four harnesses ran into the 1800 s timeout or the memory
 //     cap (single chunk: 1373 s then out of memory) -- like the design-phase probe with symbolic shape.
 //   * this version: one push sequence, one full view, one release, one retransmission view per harness.
-//@ harness props=C12 tier=thorough level=bounded timeout=1800 bound="4 symbolic bytes in chunks 2+2; release at 1; retransmit [1,4)"
+//@ harness props=C12 tier=thorough level=bounded timeout=2700 bound="4 symbolic bytes in chunks 2+2; release at 1; retransmit [1,4)"
 //@ fn Buffer::push
 //@ fn Buffer::release
 //@ fn Viewer::next_view
@@ -116,7 +116,7 @@ fn vq_c12_buffer_view_chunks_2_2() {
     scenario(&[2, 2], 1, 1, N);
 }
 
-//@ harness props=C12 tier=thorough level=bounded timeout=1800 bound="4 symbolic bytes in chunks 1+3; release at 2; retransmit [2,3)"
+//@ harness props=C12 tier=thorough level=bounded timeout=2700 bound="4 symbolic bytes in chunks 1+3; release at 2; retransmit [2,3)"
 //@ fn Buffer::push
 //@ fn Buffer::release
 //@ fn Viewer::next_view
